@@ -542,6 +542,16 @@ def World.step (w : World) (line : String) : World :=
   | "heads" => w.onHeads toks
   | "loadend" => w.onLoadEnd toks
   | "loadq" => w.onLoadQ toks
+  | "stats" =>
+    -- C11: whenever the replicator is at rest every fetch slot is free again and nothing is counted as
+    -- in progress (a slot that is never given back starves every later request once all are gone)
+    if toks.getD 2 "" == "closed" then w else
+    let n (k : String) : Nat := natOr (arg toks k) 0
+    let atRest := n "added" == 0 && n "fetching" == 0 && n "queue" == 0
+    let w := if atRest && n "free" != n "of" then
+        w.fail "C11" "slots" s!"peer {toks.getD 1 ""}: at rest only {n "free"} of {n "of"} fetch slots are free: aborted requests leak slots, and once none is left no request can fetch anything" else w
+    if atRest && n "inprogress" != 0 then
+      w.fail "C11" "slots" s!"peer {toks.getD 1 ""}: at rest {n "inprogress"} fetches are still counted as in progress" else w
   | "synced" => w.onSynced toks
   | "obs" => w.onObs toks
   | "result" => w.onResult toks
